@@ -23,6 +23,9 @@ type ValOpts struct {
 	Embedded   bool
 	FixedZone  bool // time.Time in FixedZone locations
 	BigPtrBias bool // bias towards pointer-held big numbers (C18)
+	// WideBigFloat: big.Float values of any precision (up to 1200 bits, every mantissa bit in use), not
+	// only the float64-exact ones (C18: nothing is asserted about the marshaled document there)
+	WideBigFloat bool
 	// IfaceContainers lets interface{} positions hold structs, pointers to structs, slices and maps
 	// (marshal-side properties only: unmarshaling cannot restore the dynamic type)
 	IfaceContainers bool
@@ -373,7 +376,7 @@ func GenVal(t *rapid.T, o *ValOpts, s *TypeSpec, depth int) *Val {
 	case "bigint":
 		return &Val{Num: BigIntValue(t, "v.bigint").String()}
 	case "bigfloat":
-		f := BigFloatValue(t, "v.bigfloat", false)
+		f := BigFloatValueMax(t, "v.bigfloat", o.WideBigFloat, 1200)
 		return &Val{Num: ev.BigFloatToText(f)}
 	case "apd":
 		return &Val{Num: ev.APDToText(APDValue(t, "v.apd", false))}
